@@ -347,8 +347,17 @@ def main():
     EVDIR = os.path.join(ROOT, "evidence") if REPO == "/repo" else os.path.join(WORK, pid, "evidence-alt")
     os.makedirs(os.path.join(EVDIR, "replay"), exist_ok=True)
 
+    # runs against another tree regenerate Gen/*.v from THAT tree: give them a private copy of the Coq
+    # development (compiled files included) so the shared one, used by checks of /repo, is never touched
+    global COQ
+    tr_env = {}
+    if REPO != "/repo":
+        COQ = os.environ.get("VERIF_COQ_DIR", "/tmp/vh-coq-" + hashlib.sha1(REPO.encode()).hexdigest()[:8])
+        os.makedirs(COQ, exist_ok=True)
+        sh(["rsync", "-a", "--delete", os.path.join(ROOT, "coq") + "/", COQ + "/"], timeout=600)
+        tr_env = {"VERIF_GEN_DIR": os.path.join(COQ, "theories", "Gen")}
     # 1. translator
-    rc, out = sh([sys.executable, os.path.join(ROOT, "tools", "extract_consts.py"), REPO], timeout=120)
+    rc, out = sh([sys.executable, os.path.join(ROOT, "tools", "extract_consts.py"), REPO], timeout=120, env=tr_env)
     missing = [l.split()[1] for l in out.splitlines() if l.startswith("MISSING")]
     consts = {l.split()[1]: int(l.split()[2]) for l in out.splitlines() if l.startswith("CONST")}
     needed_missing = [c for c in meta.get("consts", []) if c in missing or c not in consts]
